@@ -108,6 +108,19 @@ func buildTree(root string, r *core.Rand, deep bool) []node {
 			}
 		}
 	}
+	// at least one link to a directory that has children, at the top and one level down
+	if len(dirs) > 2 {
+		for li, where := range []string{"", dirs[1]} {
+			tgt := dirs[len(dirs)-1-li]
+			rel := filepath.Join(where, fmt.Sprintf("lnk-to-dir-%d", li))
+			up := strings.Repeat("../", strings.Count(where, "/")+btoi(where != ""))
+			if os.Symlink(up+tgt, filepath.Join(root, rel)) == nil {
+				nodes = append(nodes, node{rel, "symlink"})
+				_ = os.WriteFile(filepath.Join(root, tgt, fmt.Sprintf("behind-link-%d", li)), []byte("behind"), 0o644)
+				nodes = append(nodes, node{filepath.Join(tgt, fmt.Sprintf("behind-link-%d", li)), "file"})
+			}
+		}
+	}
 	if deep {
 		// a chain of 40 nested directories with a file at the bottom
 		rel := ""
@@ -232,12 +245,49 @@ func c16Run(ctx *core.Ctx, tree int, dotu bool) core.Result {
 		}
 		res.Count("stats_compared", 1)
 	}
+	// paths that lead THROUGH a symbolic link to a directory (the host resolves them; so must a walk)
+	var through []node
+	for _, ln := range nodes {
+		if ln.kind != "symlink" {
+			continue
+		}
+		fi, err := os.Stat(filepath.Join(e.root, ln.rel)) // follows the link
+		if err != nil || !fi.IsDir() {
+			continue
+		}
+		real, err := filepath.EvalSymlinks(filepath.Join(e.root, ln.rel))
+		if err != nil {
+			continue
+		}
+		realRel, err := filepath.Rel(e.root, real)
+		if err != nil || strings.HasPrefix(realRel, "..") {
+			continue
+		}
+		if realRel == "." {
+			realRel = ""
+		}
+		for _, d := range nodes {
+			if d.rel == realRel || d.rel == "" {
+				continue
+			}
+			if realRel == "" || strings.HasPrefix(d.rel, realRel+"/") {
+				sub := strings.TrimPrefix(strings.TrimPrefix(d.rel, realRel), "/")
+				if v := filepath.Join(ln.rel, sub); len(split(v)) <= 30 && lstat(v) != nil {
+					through = append(through, node{v, d.kind})
+				}
+			}
+		}
+	}
+	res.Count("paths_through_symlinks", int64(len(through)))
 	// ---- walks: from a start directory, k elements of which the first p exist
 	for wi := 0; wi < 260 && len(res.Violations) < 4; wi++ {
 		if wi%40 == 0 {
 			ctx.Beat()
 		}
 		target := nodes[r.Intn(len(nodes))]
+		if len(through) > 0 && wi%4 == 3 {
+			target = through[r.Intn(len(through))]
+		}
 		comps := split(target.rel)
 		// start somewhere on the way
 		s := 0
@@ -381,7 +431,7 @@ func c16Run(ctx *core.Ctx, tree int, dotu bool) core.Result {
 		return res
 	}
 	defer c.Unmount()
-	for _, nd := range nodes {
+	for _, nd := range append(append([]node{}, nodes...), through...) {
 		if len(res.Violations) > 5 {
 			break
 		}
